@@ -18,7 +18,10 @@ fn trait_case(args: &Args, idx: u64, rng: &mut Rng, rep: &mut Report) {
     let key = gen::key(rng);
     let mode = if keyed { Mode::Keyed(key) } else { Mode::Hash };
     let mut m = Stream::new(&mode);
-    let pool = gen::content(rng, 48 * 1024);
+    // one history in twelve works with large slices and long reads (size thresholds inside the trait
+    // impls: offloading, parallel long reads)
+    let large = !cfg!(miri) && rng.chance(1, 12);
+    let pool = gen::content(rng, if large { 700 * 1024 } else { 48 * 1024 });
     let prefix_len = gen::hostile_len(rng, 2000);
     let mut ops: Vec<String> = Vec::new();
     let mut failed: Option<(String, String)> = None;
@@ -82,10 +85,17 @@ fn trait_case(args: &Args, idx: u64, rng: &mut Rng, rep: &mut Report) {
         let want32 = m.root().root_hash();
         let node = m.root();
         let k = rng.below(if keyed { 26 } else { 19 });
-        let n = gen::hostile_len(rng, 6000);
+        let mut n = gen::hostile_len(rng, 6000);
+        let mut xl = gen::hostile_outlen(rng, 700);
+        if large && rng.chance(1, 2) {
+            // around 64 KiB / 128 KiB / 256 KiB / 512 KiB, from whatever partial-chunk state the
+            // hasher is in
+            n = ((64usize << 10) << rng.usize_below(4)) + rng.usize_below(1100);
+            n = n.min(pool.len() - 1);
+            xl = if rng.chance(1, 2) { (1 << 20) + rng.usize_below(1 << 19) } else { (1 << 16) + rng.usize_below(1 << 18) };
+        }
         let off = rng.usize_below(pool.len() - n);
         let d = &pool[off..off + n];
-        let xl = gen::hostile_outlen(rng, 700);
         let wantx = node.root_bytes(0, xl);
         let r: Result<(), String> = guarded(|| -> Result<(), String> {
             match k {
@@ -175,7 +185,7 @@ fn trait_case(args: &Args, idx: u64, rng: &mut Rng, rep: &mut Report) {
                     ops.push(format!("ExtendableOutput::finalize_xof + XofReader::read({})", xl));
                     let mut rd = ExtendableOutput::finalize_xof(h.clone());
                     let mut o = vec![0u8; xl];
-                    let split = if xl > 0 { rng.usize_below(xl + 1) } else { 0 };
+                    let split = if xl > 4096 && rng.chance(1, 2) { 1 + rng.usize_below(300) } else if xl > 0 { rng.usize_below(xl + 1) } else { 0 };
                     XofReader::read(&mut rd, &mut o[..split]);
                     XofReader::read(&mut rd, &mut o[split..]);
                     if o != wantx {
